@@ -406,14 +406,18 @@ EvArgsC(args, i, acc, mask, f, s, call) ==
               IF ~IsVal(r) THEN r ELSE EvArgsC(args, i + 1, Append(acc, r.v), mask, f, r.s, call)
 EvArgs(args, i, acc, mask, f, s) == EvArgsC(args, i, acc, mask, f, s, TRUE)
 
-(* force a lazy argument: evaluate once, in the frame where it was written *)
+(* force a lazy argument: its expression is evaluated once, in the frame where it was written, however *)
+(* that evaluation ends: a later force of an argument whose evaluation failed fails again without      *)
+(* running it, and a force of the argument from inside its own evaluation is refused                   *)
 Force(v, s) ==
     IF v[1] # "lazy" THEN Val(v, s)
     ELSE LET t == s.thk[v[2]] IN
-         IF t.done THEN Val(t.v, s)
-         ELSE LET r == Ev(t.e, t.f, s) IN
-              IF ~IsVal(r) THEN r
-              ELSE Val(r.v, [r.s EXCEPT !.thk[v[2]] = [t EXCEPT !.done = TRUE, !.v = r.v]])
+         IF t.done THEN (IF t.v \in {<<"failed">>, <<"running">>} THEN ErrR("forced-again", s) ELSE Val(t.v, s))
+         ELSE LET s1 == [s EXCEPT !.thk[v[2]] = [t EXCEPT !.done = TRUE, !.v = <<"running">>]]
+                  r == Ev(t.e, t.f, s1)
+              IN IF r.k = "err" THEN [r EXCEPT !.s.thk[v[2]] = [t EXCEPT !.done = TRUE, !.v = <<"failed">>]]
+                 ELSE IF ~IsVal(r) THEN r
+                 ELSE Val(r.v, [r.s EXCEPT !.thk[v[2]] = [t EXCEPT !.done = TRUE, !.v = r.v]])
 
 LazyMask(fv, s) ==
     IF fv[1] = "clo" THEN [i \in 1..Len(s.clo[fv[2]].params) |-> s.clo[fv[2]].params[i][2]]
